@@ -1,6 +1,7 @@
 package props
 
 import (
+	"strings"
 	"testing"
 
 	"pgregory.net/rapid"
@@ -25,6 +26,12 @@ func c09Check(c MetricCase) (r evid.Result) {
 	r.Class(c.Superset, "storage-superset")
 	r.Class(c.M.Grouping != nil, "grouping")
 	r.Class(c.M.Unwrap != nil, "unwrap")
+	for _, rec := range c.Recs {
+		if strings.Contains(rec.Labels["val"], "Inf") {
+			r.Class(true, "infinite-samples")
+			break
+		}
+	}
 	maxPts, edge, total, err := ev.WindowStats(&c.M, steps)
 	if err != nil {
 		if isUnsupported(err) {
@@ -82,6 +89,16 @@ func c09Gen(t *rapid.T) MetricCase {
 		for i := 1; i < len(d.Recs); i++ {
 			if d.Recs[i].TS <= d.Recs[i-1].TS {
 				d.Recs[i].TS = d.Recs[i-1].TS + datagen.Tick
+			}
+		}
+	}
+	if m.Unwrap != nil && m.Unwrap.Label == "val" && m.Unwrap.Conv == "" && m.Op != "quantile_over_time" && rapid.IntRange(0, 7).Draw(t, "special-floats") == 0 {
+		// Infinities are floats like any other: their sums, extremes and averages do not depend
+		// on the order of evaluation. NaN samples are left out: whether max(+Inf, NaN) is +Inf
+		// (math.Max, Loki), NaN or "ignore NaN" (Prometheus) is not settled by the statement.
+		for i := range d.Recs {
+			if _, ok := d.Recs[i].Labels["val"]; ok && rapid.IntRange(0, 3).Draw(t, "special") == 0 {
+				d.Recs[i].Labels["val"] = rapid.SampledFrom([]string{"+Inf", "-Inf", "Inf", "-Inf", "+Inf"}).Draw(t, "special-val")
 			}
 		}
 	}
